@@ -4,7 +4,8 @@ Cases: pw.write <p> <k> <mfail> <mok> <adapter>      pw.readfrom <script> <k> <m
   k = index of the failing WritePacket call (-1: none), mfail = its n, mok = n of the successful calls,
   script = [ [chunk errcode] ... ] with errcode 0 (nil) / 50 (io.EOF) / 60 (reader error) / 51 (io.ErrUnexpectedEOF),
   adapter 0 IOWriter(w) / 1 IOWriteCloser(NopCloser(w)) / 2 IOWriter(PacketWriterFunc(f)) / 3 IOWriter(w') and
-  4 IOWriteCloser(w'') where w' / w'' are packet writers that also have raw Write / ReadFrom (/ Close) methods of their own."""
+  4 IOWriteCloser(w'') where w' / w'' are packet writers that also have raw Write / ReadFrom (/ Close) methods of their own;
+  5 IOWriter(w''') where w''' pushes a marker packet through another adapter before it looks at its packet (nested use)."""
 from vlib import Case, hx, parse_val, fmt_val
 
 PROP = "C18"
@@ -114,7 +115,7 @@ def gen(rng, tier):
     # ---------------- Write
     for m in range(0, 7):
         p = packets(rng, m)
-        for ad in (0, 1, 2, 3, 4):
+        for ad in (0, 1, 2, 3, 4, 5):
             out.append(mk_write(p, -1, 0, PS, ad, "write-ok"))
         for k in range(m):
             for mfail in (0, PS, 100):
@@ -133,10 +134,10 @@ def gen(rng, tier):
         p = packets(rng, m)
         if rng.random() < 0.3:
             p = p + bytes(rng.randrange(256) for _ in range(rng.randrange(1, PS)))
-            out.append(mk_write(p, rng.randrange(-1, m + 1), 0, PS, rng.randrange(5), "write-badlen"))
+            out.append(mk_write(p, rng.randrange(-1, m + 1), 0, PS, rng.randrange(6), "write-badlen"))
         else:
             k = rng.randrange(-1, m + 1)
-            out.append(mk_write(p, k, rng.choice([0, PS, rng.randrange(0, 189)]), PS, rng.randrange(5),
+            out.append(mk_write(p, k, rng.choice([0, PS, rng.randrange(0, 189)]), PS, rng.randrange(6),
                                 "write-ok" if (k < 0 or k >= m) else "write-fail"))
     # ---------------- ReadFrom: complete grid for three packets
     for frag in FRAGS:
@@ -165,7 +166,7 @@ def gen(rng, tier):
             j = rng.randrange(len(sc))
             sc[j] = (sc[j][0], rng.choice([50, 60]))
         k = rng.choice([-1, -1, rng.randrange(0, m + 1)])
-        out.append(mk_rf(sc, k, rng.choice([0, PS, 100]), PS, rng.randrange(5), "rf-random-%s" % frag,
+        out.append(mk_rf(sc, k, rng.choice([0, PS, 100]), PS, rng.randrange(6), "rf-random-%s" % frag,
                          trivial=(m == 0)))
     # fidelity: writer counts other than 188 (io.ErrShortWrite path)
     for mok in (0, 100, 189, -1):
